@@ -1,7 +1,20 @@
 package main
 
 // Bounded stand-ins: the real compiled function is executed on every input within a stated bound from an
-// in-package test injected with `go test -overlay` (nothing is written to /repo).
+// in-package test injected with `go test -overlay` (nothing is written to /repo).  They are reported under
+// bounded_standins, never counted as obligations/discharged (DESIGN §2.12).
+
+import (
+	"encoding/json"
+	"fmt"
+	"os"
+	"os/exec"
+	"path/filepath"
+	"regexp"
+	"strconv"
+	"strings"
+	"time"
+)
 
 type standinViolation struct {
 	Input, Text, Output string
@@ -15,7 +28,90 @@ type standinResult struct {
 	Broken                string
 }
 
-func runStandins(w *World, repo, verif, prop, tier string, seed int) []standinResult { return nil }
+type standinSpec struct {
+	Name     string   `json:"name"`
+	Props    []string `json:"props"`
+	Pkg      string   `json:"pkg"`
+	File     string   `json:"file"`
+	Test     string   `json:"test"`
+	Function string   `json:"function"`
+	Oracle   string   `json:"oracle"`
+}
+
+var reStandinCases = regexp.MustCompile(`(?m)^VSTANDIN cases=(\d+) violations=(\d+) bound=(.*)$`)
+var reStandinViol = regexp.MustCompile(`(?m)^VSTANDIN-VIOLATION input=(.*?) :: (.*)$`)
+
+func goEnv() []string {
+	return append(os.Environ(), "GOFLAGS=-mod=mod", "GOPROXY=off", "GOSUMDB=off", "GOTOOLCHAIN=local")
+}
+
+// runOverlayTest injects file as <repo>/<pkg>/<name> and runs one test function of that package.
+func runOverlayTest(repo, pkg, srcFile, asName, test, workDir string, extraEnv []string, timeoutS int) (string, error) {
+	os.MkdirAll(workDir, 0o755)
+	ov := filepath.Join(workDir, "overlay_"+mangle(asName)+".json")
+	abs, _ := filepath.Abs(srcFile)
+	b, _ := json.Marshal(map[string]any{"Replace": map[string]string{filepath.Join(repo, pkg, asName): abs}})
+	if err := os.WriteFile(ov, b, 0o644); err != nil {
+		return "", err
+	}
+	cmd := exec.Command("go", "test", "-overlay", ov, "-vet=off", "-count=1", fmt.Sprintf("-timeout=%ds", timeoutS), "-run", "^"+test+"$", "-v", "./"+pkg)
+	cmd.Dir = repo
+	cmd.Env = append(goEnv(), extraEnv...)
+	out, err := cmd.CombinedOutput()
+	return string(out), err
+}
+
+func runStandins(w *World, repo, verif, prop, tier string, seed int) []standinResult {
+	b, err := os.ReadFile(filepath.Join(verif, "standin", "registry.json"))
+	if err != nil {
+		return nil
+	}
+	var specs []standinSpec
+	if err := json.Unmarshal(b, &specs); err != nil {
+		return []standinResult{{Name: "standin:registry", Broken: err.Error()}}
+	}
+	out := outDir
+	if out == "" {
+		out = verif
+	}
+	var res []standinResult
+	for _, s := range specs {
+		if !hasProp(s.Props, prop) {
+			continue
+		}
+		t0 := time.Now()
+		r := standinResult{Name: s.Name, Function: s.Function}
+		timeout := 300
+		if tier == "thorough" {
+			timeout = 1800
+		}
+		txt, rerr := runOverlayTest(repo, s.Pkg, filepath.Join(verif, "standin", s.File), "zz_verif_standin_test.go", s.Test,
+			filepath.Join(out, "work", prop), []string{"VERIF_TIER=" + tier, "VERIF_SEED=" + strconv.Itoa(seed)}, timeout)
+		r.Seconds = time.Since(t0).Seconds()
+		if m := reStandinCases.FindStringSubmatch(txt); m != nil {
+			r.Cases, _ = strconv.Atoi(m[1])
+			r.Bound = m[3]
+		}
+		for _, m := range reStandinViol.FindAllStringSubmatch(txt, -1) {
+			r.Violations = append(r.Violations, standinViolation{Input: m[1], Text: m[2], Output: m[0]})
+		}
+		if r.Cases == 0 && len(r.Violations) == 0 {
+			// the stand-in did not run to completion: the function it executes no longer has the shape it was
+			// written against (does not compile), or it did not terminate / crashed outside the harness
+			tail := txt
+			if len(tail) > 1500 {
+				tail = tail[len(tail)-1500:]
+			}
+			what := "the bounded stand-in could not be run against the current code"
+			if strings.Contains(txt, "test timed out") {
+				what = "the function did not terminate within the time limit on some input of the bound"
+			}
+			r.Violations = append(r.Violations, standinViolation{Input: "", Text: what + fmt.Sprintf(" (%v)", rerr), Output: tail})
+		}
+		res = append(res, r)
+	}
+	return res
+}
 
 func replayOnRealCode(w *World, repo, verif, prop string, o *Obligation) (string, bool) { return "", false }
 
